@@ -1,7 +1,9 @@
 import TflModel.Lemmas.Verify
 import TflModel.Generated.Accept
 import TflModel.Props.C01
+import TflModel.Props.C06
 import TflModel.Lemmas.Linear
+import TflModel.Lemmas.Kahn
 /-!
 # C16 — configurations are rejected up front (`ValueError`) or handled totally and finitely;
 synonymous spellings configure identical behaviour
@@ -16,6 +18,12 @@ checks around them and the `utils.py` canonicalisers, as `Raw → Except Err Cfg
   evaluation models divide by (`lattice sizes ≥ 2`, `output_min < output_max`, keypoints strictly
   increasing, trust `main ≠ cond`, …); `verifyLattice_cfgWF`: accepted ⇒ the well-formedness
   hypothesis `Tfl.C01.CfgWF` of the C01 theorems.
+* categorical cycle check (fix 66006cc): `verifyCategorical_kahn` / `_pacyclic` / `_acyclic`: every
+  accepted pair list passes the round-based check, has no cycle, and (integral indices) its `Nat`
+  form is `Tfl.Poset.Acyclic` — the HYPOTHESIS of the C06 `*_acyclic` theorems;
+  `verifyCategorical_accepts_iff`: the check rejects exactly the cyclic lists;
+  `categoricalLayer_projection_total`: for every accepted layer configuration the projection does
+  not raise and returns a column satisfying every pair and both bounds.
 * T2 `*_syn`: synonymous spellings canonicalise to EQUAL configurations.
 * counter-witnesses of the recorded findings (`F_C16_*`); `fixed_C16_*`: the fixed model rejects the
   old witnesses of the findings fixed in the source.
@@ -55,12 +63,20 @@ theorem accept_uniformOutputInitializer :
 /-- `LinearConstraints.__init__` (linear_lib.verify_hyperparameters) -/
 theorem accept_linearConstraints :
     tableOK linearConstraints linearConstraints_row linearConstraints_chunks = true := by decide +kernel
-/-- `Linear.__init__` (broadcast of a scalar monotonicity + verification) -/
+/-- `Linear.__init__` (broadcast of a scalar monotonicity + verification of the monotonicities AND,
+since fix 4a8f232, of `input_min` / `input_max`) -/
 theorem accept_linearLayer :
     tableOK linearLayer linearLayer_row linearLayer_chunks = true := by decide +kernel
+/-- `Lattice.__init__`: first verification, wrapping of a bare joint unimodality, verification of the
+joint unimodalities (fix f995047), `create_kernel_initializer` with its initializer's own verification -/
+theorem accept_latticeLayer :
+    tableOK latticeLayer latticeLayer_row latticeLayer_chunks = true := by decide +kernel
+/-- `CategoricalCalibrationConstraints.__init__` (bounds, pair shapes and ranges, and since fix 66006cc
+the round-based cycle check) — the table is the exhaustive cross product of its domains -/
 theorem accept_categoricalConstraints :
     tableOK categoricalConstraints categoricalConstraints_row categoricalConstraints_chunks = true := by
   decide +kernel
+/-- `CategoricalCalibration.__init__` — exhaustive cross product as well -/
 theorem accept_categoricalLayer :
     tableOK categoricalLayer categoricalLayer_row categoricalLayer_chunks = true := by decide +kernel
 /-- `KroneckerFactoredLattice.__init__` -/
@@ -548,6 +564,8 @@ theorem verifyCategorical_ok (nb omin omax mono : Val) (c : CatCfg)
         split at h
         · cases h
         · rename_i ps hps
+          split at h
+          · cases h
           simp only [pure, Except.pure, Except.ok.injEq] at h
           subst h
           refine ⟨hbd, ?_⟩
@@ -562,6 +580,196 @@ theorem verifyCategorical_ok (nb omin omax mono : Val) (c : CatCfg)
               · obtain ⟨it, _, hit⟩ := mapE_mem hps hp
                 exact catPair_spec hit
             · cases hps
+
+/-! ### the cycle check of the categorical constructors (fix 66006cc) -/
+
+/-- the parts of an accepted categorical configuration -/
+theorem verifyCategorical_parts {nb omin omax mono : Val} {c : CatCfg}
+    (h : verifyCategorical nb omin omax mono = .ok c) :
+    catPairs (nbOf nb) mono = .ok c.pairs ∧ kahnAcyclic c.pairs.length c.pairs = true ∧
+    c.buckets = (nbOf nb).map Int.toNat := by
+  simp only [verifyCategorical, bind, Except.bind] at h
+  split at h
+  · cases h
+  · split at h
+    · cases h
+    · split at h
+      · cases h
+      · split at h
+        · cases h
+        · rename_i ps hps
+          split at h
+          · cases h
+          · rename_i hk
+            simp only [pure, Except.pure, Except.ok.injEq] at h
+            subst h
+            exact ⟨hps, by simpa using hk, rfl⟩
+
+/-- **C16 (categorical, cycle check)** whatever `categorical_calibration_lib.verify_hyperparameters`
+accepts — for ALL raw arguments — passes the round-based check of fix 66006cc: the loop ends with
+`remaining` empty. -/
+theorem verifyCategorical_kahn (nb omin omax mono : Val) (c : CatCfg)
+    (h : verifyCategorical nb omin omax mono = .ok c) :
+    kahnAcyclic c.pairs.length c.pairs = true := (verifyCategorical_parts h).2.1
+
+/-- **C16 (categorical, accepted ⇒ acyclic)** an accepted pair list has no cycle
+`x → … → x` (self pairs and cycles behind a root included), as a statement about the indices as
+the validation compares them (numbers; `1.0` and `1` are the same bucket). -/
+theorem verifyCategorical_pacyclic (nb omin omax mono : Val) (c : CatCfg)
+    (h : verifyCategorical nb omin omax mono = .ok c) : PAcyclic c.pairs :=
+  kahnAcyclic_sound _ _ (verifyCategorical_kahn nb omin omax mono c h)
+
+/-- every index is integral (a Python int, or a float such as `1.0`) -/
+def IntPairs (ps : List (Rat × Rat)) : Prop := ∀ p ∈ ps, p.1.den = 1 ∧ p.2.den = 1
+
+theorem floor_toNat_inj {a b : Rat} (ha : 0 ≤ a) (hb : 0 ≤ b) (hai : a.den = 1) (hbi : b.den = 1)
+    (h : a.floor.toNat = b.floor.toNat) : a = b := by
+  have ea : ((a.num : Int) : Rat) = a := (Rat.den_eq_one_iff a).mp hai
+  have eb : ((b.num : Int) : Rat) = b := (Rat.den_eq_one_iff b).mp hbi
+  have na : 0 ≤ a.num := Rat.num_nonneg.mpr ha
+  have nb : 0 ≤ b.num := Rat.num_nonneg.mpr hb
+  rw [← ea, ← eb, Rat.floor_intCast, Rat.floor_intCast] at h
+  have : a.num = b.num := by omega
+  rw [← ea, ← eb, this]
+
+/-- **C16 → C06 (the `Acyclic` hypothesis is discharged by construction)**: for every accepted
+categorical configuration with integral indices, the pair set handed to the projection is
+`Tfl.Poset.Acyclic` — the hypothesis of `Tfl.C06.categorical_pairs_and_bounds_acyclic`,
+`categorical_fixpoint_acyclic` and of `Tfl.Poset.topoSort_valid`. (Non-integral floats such as
+`1.5` pass the validation too; they are no buckets, hence the integrality hypothesis. It holds
+whenever the raw indices are Python ints: `verifyCategorical_intPairs`.) -/
+theorem verifyCategorical_acyclic (nb omin omax mono : Val) (c : CatCfg)
+    (h : verifyCategorical nb omin omax mono = .ok c) (hint : IntPairs c.pairs) :
+    Tfl.Poset.Acyclic c.natPairs := by
+  have hok := (verifyCategorical_ok nb omin omax mono c h).2
+  have hnn : ∀ a, PNode c.pairs a → 0 ≤ a ∧ a.den = 1 := by
+    rintro a ⟨p, hp, e | e⟩
+    · exact e ▸ ⟨(hok p hp).1, (hint p hp).1⟩
+    · exact e ▸ ⟨(hok p hp).2.1, (hint p hp).2⟩
+  exact (pacyclic_nat_iff _).mp (pacyclic_map (fun r : Rat => r.floor.toNat)
+    (fun a b ha hb e => floor_toNat_inj (hnn a ha).1 (hnn b hb).1 (hnn a ha).2 (hnn b hb).2 e)
+    (verifyCategorical_pacyclic nb omin omax mono c h))
+
+theorem catPair_int {nb : Option Int} {it : Item} {p : Rat × Rat} (hi : intPairItem it = true)
+    (h : catPair nb it = .ok p) : p.1.den = 1 ∧ p.2.den = 1 := by
+  unfold intPairItem at hi
+  split at hi
+  · rename_i t i j
+    simp only [catPair, Atom.toNum, Atom.num, bind, Except.bind] at h
+    split at h
+    · cases h
+    · split at h
+      · cases h
+      · split at h
+        · split at h
+          · cases h
+          · simp only [pure, Except.pure, Except.ok.injEq] at h
+            subst h; exact ⟨rfl, rfl⟩
+        · simp only [pure, Except.pure, Except.ok.injEq] at h
+          subst h; exact ⟨rfl, rfl⟩
+  · cases hi
+
+/-- raw indices that are Python ints give integral accepted indices -/
+theorem verifyCategorical_intPairs (nb omin omax mono : Val) (c : CatCfg)
+    (h : verifyCategorical nb omin omax mono = .ok c) (hraw : mono.intPairs = true) : IntPairs c.pairs := by
+  have hps := (verifyCategorical_parts h).1
+  intro p hp
+  unfold catPairs at hps
+  split at hps
+  · simp only [Except.ok.injEq] at hps; rw [← hps] at hp; cases hp
+  · split at hps
+    · rename_i xs
+      split at hps
+      · cases hps
+      · obtain ⟨it, hit, hpi⟩ := mapE_mem hps hp
+        simp only [Val.intPairs, List.all_eq_true] at hraw
+        exact catPair_int (hraw it hit) hpi
+    · cases hps
+
+/-- **the cycle check rejects EXACTLY the cyclic pair lists**: with bounds in order and every pair
+well-formed and in range, the configuration is accepted iff its pair list has no cycle
+(soundness `kahnAcyclic_sound` and completeness `kahnAcyclic_complete` of the rounds). -/
+theorem verifyCategorical_accepts_iff (nb omin omax mono : Val) (lo hi : Option Rat) (ps : List (Rat × Rat))
+    (hlo : boundOf omin = .ok lo) (hhi : boundOf omax = .ok hi) (hb : hiLtLo lo hi = false)
+    (hps : catPairs (nbOf nb) mono = .ok ps) :
+    outcome (verifyCategorical nb omin omax mono) = 0 ↔ PAcyclic ps := by
+  simp only [verifyCategorical, bind, Except.bind, hlo, hhi, hb, hps]
+  by_cases hk : kahnAcyclic ps.length ps = true
+  · simp [hk, outcome, pure, Except.pure, (kahnAcyclic_iff ps).mp hk]
+  · have : ¬ PAcyclic ps := fun h => hk ((kahnAcyclic_iff ps).mpr h)
+    simp [hk, outcome, ve, this]
+
+theorem natPairs_node {ps : List (Rat × Rat)} {a : Nat} (h : Tfl.Poset.IsNode (natPairs ps) a) :
+    ∃ p ∈ ps, p.1.floor.toNat = a ∨ p.2.floor.toNat = a := by
+  obtain ⟨c, hc, e⟩ := h
+  obtain ⟨p, hp, rfl⟩ := List.mem_map.mp hc
+  exact ⟨p, hp, e⟩
+
+theorem floor_toNat_lt {r : Rat} {k : Int} (h : r < k) (h0 : 0 ≤ r) : r.floor.toNat < k.toNat := by
+  have h1 : r.floor < k := Rat.floor_lt_iff.mpr h
+  have h2 : 0 ≤ r.floor := Rat.le_floor_iff.mpr (by simpa using h0)
+  omega
+
+/-- **C16 + C06 (categorical): accepted ⇒ the projection is total and enforces the configuration.**
+For EVERY configuration accepted by the model of `CategoricalCalibration.__init__` (integral
+indices) and every kernel column with `num_buckets` entries, the constraint
+`CategoricalCalibrationConstraints.__call__` (model `Tfl.Categorical.project`) does not raise, and
+returns a column of the same length that satisfies every monotonicity pair and lies within the
+output bounds. No acyclicity, range or bound-order hypothesis is left: all three are what the
+constructor has verified. -/
+theorem categoricalLayer_projection_total (r : RawCat) (c : CatCfg) (h : categoricalLayer r = .ok c)
+    (hint : IntPairs c.pairs) (n : Nat) (hn : c.buckets = some n) (w : List Rat) (hw : w.length = n) :
+    ∃ out, Tfl.Categorical.project c.lo c.hi c.natPairs w = .ok out ∧
+      Tfl.Poset.Feasible c.natPairs out ∧ out.length = w.length ∧
+      ∀ k, k < out.length → (∀ l, c.lo = some l → l ≤ Tfl.Poset.getV out k) ∧
+        (∀ h', c.hi = some h' → Tfl.Poset.getV out k ≤ h') := by
+  have hok := verifyCategorical_ok r.nb r.omin r.omax r.mono c h
+  have hb := (verifyCategorical_parts h).2.2
+  rw [hn] at hb
+  cases hnb : nbOf r.nb with
+  | none => rw [hnb] at hb; cases hb
+  | some k =>
+    rw [hnb] at hb
+    simp only [Option.map_some, Option.some.injEq] at hb
+    refine Tfl.C06.categorical_pairs_and_bounds_acyclic c.lo c.hi c.natPairs w
+      (verifyCategorical_acyclic r.nb r.omin r.omax r.mono c h hint) ?_ hok.1
+    intro a ha
+    obtain ⟨p, hp, e⟩ := natPairs_node ha
+    obtain ⟨h1, h2, h3⟩ := hok.2 p hp
+    obtain ⟨l1, l2⟩ := h3 k hnb
+    rw [hw, hb]
+    rcases e with e | e <;> rw [← e]
+    · exact floor_toNat_lt l1 h1
+    · exact floor_toNat_lt l2 h2
+
+/-- the same for the constraints class, which does not know `num_buckets`: the indices must lie
+inside the column (what the layer's `num_buckets` check provides) -/
+theorem categoricalConstraints_projection_total (r : RawCatC) (c : CatCfg) (h : categoricalConstraints r = .ok c)
+    (hint : IntPairs c.pairs) (w : List Rat) (hin : ∀ p ∈ c.pairs, p.1 < w.length ∧ p.2 < w.length) :
+    ∃ out, Tfl.Categorical.project c.lo c.hi c.natPairs w = .ok out ∧
+      Tfl.Poset.Feasible c.natPairs out ∧ out.length = w.length ∧
+      ∀ k, k < out.length → (∀ l, c.lo = some l → l ≤ Tfl.Poset.getV out k) ∧
+        (∀ h', c.hi = some h' → Tfl.Poset.getV out k ≤ h') := by
+  have hok := verifyCategorical_ok _ r.omin r.omax r.mono c h
+  refine Tfl.C06.categorical_pairs_and_bounds_acyclic c.lo c.hi c.natPairs w
+    (verifyCategorical_acyclic _ r.omin r.omax r.mono c h hint) ?_ hok.1
+  intro a ha
+  obtain ⟨p, hp, e⟩ := natPairs_node ha
+  obtain ⟨h1, h2, _⟩ := hok.2 p hp
+  have hl := hin p hp
+  have key : ∀ x : Rat, 0 ≤ x → x < w.length → x.floor.toNat < w.length := by
+    intro x hx hlt
+    have := floor_toNat_lt (r := x) (k := (w.length : Int)) (by exact_mod_cast hlt) hx
+    simpa using this
+  rcases e with e | e <;> rw [← e]
+  · exact key _ h1 hl.1
+  · exact key _ h2 hl.2
+
+/-- non-vacuity: the diamond with a repeated pair and bounds is accepted, its indices are integral,
+and the projection of a hostile column is feasible -/
+example : outcome (categoricalLayer ⟨.a (.int 4), .a (.flt 0), .a (.flt 1),
+    .s false [.s true [.int 0, .int 1], .s true [.int 0, .int 2], .s false [.int 1, .int 3], .s true [.int 2, .int 3],
+      .s true [.int 0, .int 1]]⟩) = 0 := by decide +kernel
 
 theorem lessThan_false {v : Val} {k : Rat} (h : lessThan v k = .ok false) :
     ∀ i : Int, v = .a (.int i) → k ≤ i := by
@@ -800,19 +1008,186 @@ theorem latticeConstraints_cfgWF (r : RawLattice) (c : LatCfg) (h : latticeConst
     (hnd : (c.ew.map (fun t => (atomNat t.main, atomNat t.cond))).Nodup) : Tfl.C01.CfgWF c.toLat :=
   verifyLattice_cfgWF _ c h hnd
 
-/-- **F-C16-n** the ValueError for repeated dimensions in a joint unimodality formats its message
-with `% single_constraint` (a 2-tuple): the real outcome is a `TypeError` -/
-theorem F_C16_n_message_formatting :
+/-- **F-C16-n, fixed by f7753e0**: repeated dimensions inside one joint unimodality are rejected with
+the intended `ValueError` (the message is formatted with `% (single_constraint,)`; it was a
+`TypeError`) by `LatticeConstraints` and by `Lattice`, also after a valid first constraint; distinct
+dimensions are accepted -/
+theorem fixed_C16_n_repeated_dims_rejected :
     outcome (latticeConstraints ⟨.s false [.a (.int 3), .a (.int 3), .a (.int 3)], .a .none, .a .none, .a .none, .a .none,
-      .a .none, .a .none, .a .none, .list [([0, 0], .str .peak)], .a .none, .a .none⟩) = 2 := by decide +kernel
+      .a .none, .a .none, .a .none, .list [([0, 0], .str .peak)], .a .none, .a .none⟩) = 1 ∧
+    outcome (latticeConstraints ⟨.s false [.a (.int 3), .a (.int 3), .a (.int 3)], .a .none, .a .none, .a .none, .a .none,
+      .a .none, .a .none, .a .none, .list [([2], .str .valley), ([1, 0, 1], .str .peak)], .a .none, .a .none⟩) = 1 ∧
+    outcome (latticeLayer ⟨.s false [.a (.int 3), .a (.int 3), .a (.int 3)], .a .none, .a .none,
+      .list [([0, 0], .str .peak)], .a .none, .a .none, .a (.str .hypercube), .a (.str .other)⟩) = 1 ∧
+    outcome (latticeConstraints ⟨.s false [.a (.int 3), .a (.int 3), .a (.int 3)], .a .none, .a .none, .a .none, .a .none,
+      .a .none, .a .none, .a .none, .list [([0, 1], .str .peak)], .a .none, .a .none⟩) = 0 := by decide +kernel
+
+/-- **F-C16-p, fixed by f995047**: `Lattice.__init__` verifies the joint unimodalities BEFORE
+`create_kernel_initializer` indexes `all_unimodalities` by their dimensions: a dimension outside the
+lattice (`7`, `-1`, `rank`) is a `ValueError`; `create_kernel_initializer` alone — what the
+constructor ran into before the fix — raises `IndexError` (outcome 3) on the old witness; a valid
+joint unimodality is accepted. -/
+theorem fixed_C16_p_joint_unimodality_dims_verified_first :
+    let base : RawLatLayer := ⟨.s false [.a (.int 3), .a (.int 3)], .a .none, .a .none, .none, .a .none, .a .none,
+      .a (.str .hypercube), .a (.str .other)⟩
+    outcome (latticeLayer { base with ju := .list [([7], .str .peak)] }) = 1 ∧
+    outcome (createKernelInitializer base (.list [([7], .str .peak)])) = 3 ∧
+    outcome (latticeLayer { base with ju := .list [([-1], .str .peak)] }) = 1 ∧
+    outcome (latticeLayer { base with ju := .list [([2], .str .peak)] }) = 1 ∧
+    outcome (latticeLayer { base with ju := .single [0, 9] (.str .valley) }) = 1 ∧
+    outcome (latticeLayer { base with ju := .list [([1], .str .peak)] }) = 0 ∧
+    outcome (latticeLayer { base with ju := .single [0, 1] (.str .valley) }) = 0 := by decide +kernel
+
+theorem pySetAll_ok (x : Atom) : ∀ (ds : List Int) (l : List Atom), (∀ d ∈ ds, 0 ≤ d ∧ d < l.length) →
+    ∃ l', pySetAll x ds l = .ok l' ∧ l'.length = l.length := by
+  intro ds
+  induction ds with
+  | nil => intro l _; exact ⟨l, rfl, rfl⟩
+  | cons d ds ih =>
+    intro l h
+    have hd := h d (List.mem_cons_self ..)
+    have e : pySet l d x = .ok (l.set d.toNat x) := by simp [pySet, hd.1, hd.2]
+    obtain ⟨l', h1, h2⟩ := ih (l.set d.toNat x) (fun d' hd' => by
+      rw [List.length_set]; exact h d' (List.mem_cons_of_mem _ hd'))
+    refine ⟨l', ?_, by rw [h2, List.length_set]⟩
+    simp only [pySetAll, bind, Except.bind, e]
+    exact h1
+
+theorem juDimLoop_range {sizes : List Int} {mono : Option (List Atom)} :
+    ∀ ds : List Int, juDimLoop sizes mono ds = .ok () → ∀ d ∈ ds, 0 ≤ d ∧ d < sizes.length := by
+  intro ds
+  induction ds with
+  | nil => intro _ d hd; cases hd
+  | cons a ds ih =>
+    intro h d hd
+    unfold juDimLoop at h
+    split_ifs at h with hr
+    · cases h
+    · cases h
+    · cases h
+    · rcases List.mem_cons.mp hd with e | e
+      · subst e
+        exact ⟨by omega, by omega⟩
+      · exact ih h d e
+
+theorem juLoop_range {sizes : List Int} {mono : Option (List Atom)} :
+    ∀ xs : List (List Int × Atom), juLoop sizes mono xs = .ok () →
+      ∀ p ∈ xs, ∀ d ∈ p.1, 0 ≤ d ∧ d < sizes.length := by
+  intro xs
+  induction xs with
+  | nil => intro _ p hp; cases hp
+  | cons q rest ih =>
+    intro h p hp
+    obtain ⟨dims, dir⟩ := q
+    simp only [juLoop, bind, Except.bind] at h
+    split at h
+    · cases h
+    · split at h
+      · cases h
+      · rename_i hdl
+        split at h
+        · cases h
+        · rcases List.mem_cons.mp hp with e | e
+          · subst e
+            have hu : juDimLoop sizes mono dims = .ok () := by
+              rw [hdl]
+            exact juDimLoop_range dims hu
+          · exact ih h p e
+
+theorem foldlM_pySetAll_ok : ∀ (ju : List (List Int × Atom)) (l : List Atom),
+    (∀ p ∈ ju, ∀ d ∈ p.1, 0 ≤ d ∧ d < (l.length : Int)) →
+    ∃ l', ju.foldlM (fun l p => pySetAll p.2 p.1 l) l = .ok l' ∧ l'.length = l.length := by
+  intro ju
+  induction ju with
+  | nil => intro l _; exact ⟨l, rfl, rfl⟩
+  | cons p rest ih =>
+    intro l h
+    obtain ⟨l1, e1, n1⟩ := pySetAll_ok p.2 p.1 l (h p (List.mem_cons_self ..))
+    obtain ⟨l2, e2, n2⟩ := ih l1 (fun q hq d hd => by rw [n1]; exact h q (List.mem_cons_of_mem _ hq) d hd)
+    refine ⟨l2, ?_, by rw [n2, n1]⟩
+    simp only [List.foldlM_cons, bind, Except.bind, e1]
+    exact e2
+
+/-- **C16-T1 (Lattice layer, fix f995047)** once the verification of the joint unimodalities has
+accepted them — for ALL lattice sizes, monotonicities and joint unimodalities — the loop of
+`create_kernel_initializer` that indexes the per-dimension list `all_unimodalities` by the jointly
+unimodal dimensions stays in range: no `IndexError` can follow the second verification of
+`Lattice.__init__` (before the fix nothing had verified the dimensions at that point: F-C16-p). -/
+theorem latticeLayer_indexing_total (sizes : List Int) (mono : Option (List Atom)) (ju : JU)
+    (xs : List (List Int × Atom)) (h : verifyJU sizes mono ju = .ok xs) (uni : Val) :
+    ∃ l, allUnimodalities sizes.length uni ju.pairs = .ok l ∧ l.length = sizes.length := by
+  have hr : ∀ p ∈ ju.pairs, ∀ d ∈ p.1, 0 ≤ d ∧ d < (sizes.length : Int) := by
+    cases ju with
+    | none => intro p hp; cases hp
+    | single _ _ => intro p hp; cases hp
+    | list ys =>
+      simp only [verifyJU, bind, Except.bind] at h
+      split at h
+      · cases h
+      · rename_i u hu
+        cases u
+        exact juLoop_range ys hu
+  unfold allUnimodalities
+  cases uni with
+  | a x =>
+    obtain ⟨l, e, n⟩ := foldlM_pySetAll_ok ju.pairs (List.replicate sizes.length (.int 0))
+      (by simpa using hr)
+    exact ⟨l, e, by simpa using n⟩
+  | s t ys =>
+    obtain ⟨l, e, n⟩ := foldlM_pySetAll_ok ju.pairs ((List.range sizes.length).map (fun i =>
+        match ys.getD i (.a (.int 0)) with
+        | .a x => if x.truthy then x else .int 0
+        | .s _ _ => .int 0))
+      (by simpa using hr)
+    exact ⟨l, e, by simpa using n⟩
+
+/-- **F-C16-i (residual), fixed by 4a8f232**: `Linear.__init__` hands `input_min` / `input_max` to the
+verification: bounds of the wrong length and crossed bounds are a `ValueError` at construction also
+when the layer has no monotonicity (no constraint object is ever created); bounds of the right
+length (with `None` / `'none'` entries) are accepted. -/
+theorem fixed_C16_i_linear_layer_bounds_verified :
+    outcome (linearLayer ⟨.a (.int 3), .a .none, .s false [.a (.flt 0), .a (.flt 0)], .a .none⟩) = 1 ∧
+    outcome (linearLayer ⟨.a (.int 3), .a .none, .a .none, .s false [.a (.flt 1), .a (.flt 1), .a (.flt 1), .a (.flt 1)]⟩) = 1 ∧
+    outcome (linearLayer ⟨.a (.int 2), .a .none, .s false [.a (.flt 1), .a (.flt 0)], .s false [.a (.flt 0), .a (.flt 1)]⟩) = 1 ∧
+    outcome (linearLayer ⟨.a (.int 3), .a .none, .s false [.a (.flt 0), .a .none, .a (.str .none_)],
+      .s false [.a (.flt 1), .a (.flt 1), .a (.flt 1)]⟩) = 0 := by decide +kernel
+
+/-- **F-C16-l, fixed by 66006cc**: circular categorical monotonicity pairs are rejected with a
+`ValueError` at construction (layer and constraints class): the 2-cycle, the cycle behind a root
+`[(0,1),(1,2),(2,1)]` that `_topological_sort` never rejected, a self pair, a cycle closed through a
+float-spelled index; chains, diamonds and repeated pairs are accepted. -/
+theorem fixed_C16_l_circular_pairs_rejected :
+    let pr (i j : Int) : Item := .s true [.int i, .int j]
+    let lay (ps : List Item) : Nat := outcome (categoricalLayer ⟨.a (.int 4), .a .none, .a .none, .s false ps⟩)
+    lay [pr 0 1, pr 1 0] = 1 ∧ lay [pr 0 1, pr 1 2, pr 2 1] = 1 ∧ lay [pr 0 0] = 1 ∧ lay [pr 0 1, pr 1 1] = 1 ∧
+    lay [pr 0 1, pr 1 2, pr 2 3, pr 3 1] = 1 ∧ lay [pr 0 1, .s true [.flt 1, .int 0]] = 1 ∧
+    outcome (categoricalConstraints ⟨.a .none, .a .none, .s false [pr 0 1, pr 1 2, pr 2 1]⟩) = 1 ∧
+    lay [pr 0 1, pr 1 2] = 0 ∧ lay [pr 0 1, pr 0 2, pr 1 3, pr 2 3] = 0 ∧ lay [pr 0 1, pr 0 1] = 0 ∧
+    lay [pr 2 3, pr 1 2, pr 0 1] = 0 := by decide +kernel
+
+/-- **F-C16-k, fixed by 7b8a1bf (and c6f03d2 for the categorical part)**: the failure was one of
+dtypes at the first call (a float32 `tf.ones` concatenated with float64 interpolation weights), which
+the validation model does not describe; what the model states is that the witnesses — a
+`learned_interior` calibrator and one with missing-value imputation — are ACCEPTED configurations,
+so the property demands that they work; the harness builds, projects and evaluates them in float64
+(corpus/C16/fixed.json). -/
+theorem fixed_C16_k_float64_witnesses_accepted :
+    let base : RawPwl := ⟨.s false [.a (.flt 0), .a (.flt 1), .a (.flt 2)], .a .none, .a .none, .a (.str .none_),
+      .a (.str .none_), .a (.int 0), .a (.int 0), .a .none, .a .none, .a (.str .fixed), .a (.int 0), .a (.int 0),
+      .a (.str .other)⟩
+    outcome (pwlCalibration { base with kptype := .a (.str .learned_interior) }) = 0 ∧
+    outcome (pwlCalibration { base with impute := .a (.int 1), missIn := .a (.flt (-1)) }) = 0 := by decide +kernel
 
 /-- the cycle check of `internal_utils._topological_sort` rejects a pair set only when it has NO
 root: `[(0,1),(1,0)]` is rejected, `[(0,1),(1,2),(2,1)]` is not (the returned order `[0,1,2]` is
-not a valid topological order) -/
+not a valid topological order) — which is why the categorical constructors run their own complete
+check since fix 66006cc (`kahnAcyclic` rejects both) -/
 theorem cycle_check_incomplete :
     cycleRejected [(0, 1), (1, 0)] = true ∧ cycleRejected [(0, 1), (1, 2), (2, 1)] = false ∧
     Tfl.Poset.topoSort [(0, 1), (1, 2), (2, 1)] = some [0, 1, 2] ∧
-    Tfl.Poset.validOrder [(0, 1), (1, 2), (2, 1)] [0, 1, 2] = false := by decide +kernel
+    Tfl.Poset.validOrder [(0, 1), (1, 2), (2, 1)] [0, 1, 2] = false ∧
+    kahnAcyclic 2 [((0 : Nat), (1 : Nat)), (1, 0)] = false ∧
+    kahnAcyclic 3 [((0 : Nat), (1 : Nat)), (1, 2), (2, 1)] = false := by decide +kernel
 
 
 end Tfl.C16
